@@ -5,6 +5,7 @@ import VProps.C03
 #print axioms V.C03.referenceID_ignores_signatures
 #print axioms V.C03.eventID_ignores_signatures
 #print axioms V.C03.eventID_redact_invariant
+#print axioms V.C03.eventID_redact_invariant_received
 #print axioms V.C03.eventID_injective
 #print axioms V.C03.hash_injective
 #print axioms V.C03.eventID_alphabet
